@@ -5,3 +5,4 @@ import NautilusVerif.Driver.ResampleD
 import NautilusVerif.Driver.UnionD
 import NautilusVerif.Driver.CoreD
 import NautilusVerif.Driver.CrashD
+import NautilusVerif.Driver.BoundD
